@@ -148,3 +148,9 @@ class RelTopList:
 
     def ensures(old, s, result):
         return {"completed": result == True}  # noqa: E712
+
+
+from pyvc.native import native_monitor  # noqa: E402
+
+EXTRA_CHECKS = [native_monitor("C15", "contracts.c04_native", "monitor_hyperband", "hyperband", "631 (thorough 3598) scenarios: the real HyperbandScheduler (promotion, pasha, rush, cost-aware, stopping; 1..3 brackets; all data policies; random and GP searcher) under a Tuner-like event loop with failures and self-completion, compared with an independent ledger (numpy quantiles, three-valued eligibility with tie latitude, total cost, PASHA min/max twin)")]
+EXTRA_CHECKS = list(EXTRA_CHECKS) + [native_monitor("C15", "contracts.c05_native", "monitor_sync", "sync-hyperband", "about 23000 (thorough 217000) scenarios: get_top_list on every rank permutation x failure subset of <= 5 (6) slots, single brackets, synchronous and DEHB bracket managers and schedulers under every return order / failure sequence of 3..5 (5..7) steps and random schedules (1..9 workers, <= 70 (160) steps), against an independent reference with tie latitude; min/max twin runs incl. PASHA soft ranking and asynchronous Hyperband types")]
